@@ -67,7 +67,7 @@ func seedFromEnv() uint64 {
 func partition(units []core.Unit, n int) [][]int {
 	var solo, rest []int
 	for i, u := range units {
-		if u.Solo {
+		if u.Solo || u.Fresh {
 			solo = append(solo, i)
 		} else {
 			rest = append(rest, i)
@@ -203,8 +203,14 @@ func replay(args []string) int {
 	if p.Race && v.Oracle == "race-detector" {
 		tries = 10 // a schedule cannot be replayed: re-run the workload and see whether the race report recurs
 	}
+	if strings.HasPrefix(v.Case.Oracle, "concurrent") || strings.HasSuffix(v.Case.Oracle, "-concurrent") {
+		tries = 10 // schedule-dependent: repeat until the oracle complains again
+	}
 	for i := 0; i < tries; i++ {
 		c.Do(v.Case)
+		if len(c.Report().Violations) > 0 {
+			break
+		}
 	}
 	r := c.Report()
 	if p.Post != nil {
@@ -634,13 +640,28 @@ func confirmCrash(self string, p *core.Property, tier string, seed uint64, work 
 	d, _ := json.Marshal(v)
 	_ = os.WriteFile(tmp, d, 0o644)
 	const cpu = 20
+	// a crash that depends on the schedule (concurrent oracles) need not recur on
+	// the first attempt: the confirmation replay is repeated up to five times
+	var last string
+	for attempt := 0; attempt < 5; attempt++ {
+		v2, info, done := confirmOnce(self, p, tier, tmp, work, ch, v, why, cpu)
+		if done {
+			return v2, info
+		}
+		last = info
+	}
+	return nil, last
+}
+
+func confirmOnce(self string, p *core.Property, tier, tmp, work string, ch *child, v *core.Violation, why string, cpu int) (*core.Violation, string, bool) {
+	logTail := tail(ch.log, 60)
 	cmd := exec.Command(self, "replay", p.ID, tmp)
 	cmd.Env = append(os.Environ(), fmt.Sprintf("VERIF_CPU_LIMIT=%d", cpu), "VERIF_TIER="+tier)
 	outPath := filepath.Join(work, fmt.Sprintf("crash.%d.out", ch.idx))
 	of, _ := os.Create(outPath)
 	cmd.Stdout, cmd.Stderr = of, of
 	if err := cmd.Start(); err != nil {
-		return nil, why + ": cannot start replay: " + err.Error()
+		return nil, why + ": cannot start replay: " + err.Error(), true
 	}
 	done := make(chan error, 1)
 	go func() { done <- cmd.Wait() }()
@@ -655,6 +676,16 @@ func confirmCrash(self string, p *core.Property, tier string, seed uint64, work 
 	}
 	of.Close()
 	out := tail(outPath, 40)
+	if full, err := os.ReadFile(outPath); err == nil {
+		// a runtime fatal error prints its headline first and every goroutine after it
+		if i := strings.Index(string(full), "fatal error:"); i >= 0 {
+			head := string(full[i:])
+			if len(head) > 3000 {
+				head = head[:3000] + "\n…"
+			}
+			out = head
+		}
+	}
 	cpuUsed := time.Duration(0)
 	if cmd.ProcessState != nil {
 		cpuUsed = cmd.ProcessState.UserTime() + cmd.ProcessState.SystemTime()
@@ -667,23 +698,23 @@ func confirmCrash(self string, p *core.Property, tier string, seed uint64, work 
 	case code == core.MemExitCode:
 		v.Signature = "unbounded-memory"
 		v.Detail = why + "; replay alone exceeded the memory cap\n" + out
-		return v, ""
-	case cpuUsed >= (cpu-1)*time.Second:
+		return v, "", true
+	case cpuUsed >= time.Duration(cpu-1)*time.Second:
 		v.Signature = "hang"
 		v.Detail = fmt.Sprintf("%s; replay alone burned %.1fs CPU (budget %ds) without finishing\n%s", why, cpuUsed.Seconds(), cpu, out)
-		return v, ""
+		return v, "", true
 	case strings.Contains(out, "fatal error:") || strings.Contains(out, "goroutine stack exceeds"):
 		v.Signature = "fatal"
 		v.Detail = why + "; replay alone died with a runtime fatal error\n" + out
-		return v, ""
+		return v, "", true
 	case code == 1 && strings.Contains(out, "REPRODUCED"):
 		// an ordinary violation that the shard had no chance to report
 		v.Signature = "reproduced-after-crash"
 		v.Detail = why + "\n" + out
-		return v, ""
+		return v, "", true
 	}
 	_ = err
-	return nil, fmt.Sprintf("%s; journalled case did not reproduce alone (exit=%d cpu=%.1fs timedOut=%v)\nshard log tail:\n%s\nreplay output:\n%s", why, code, cpuUsed.Seconds(), timedOut, logTail, out)
+	return nil, fmt.Sprintf("%s; journalled case did not reproduce alone in five attempts (exit=%d cpu=%.1fs timedOut=%v)\nshard log tail:\n%s\nreplay output:\n%s", why, code, cpuUsed.Seconds(), timedOut, logTail, out), false
 }
 
 func tail(path string, n int) string {
